@@ -18,7 +18,7 @@ Definition un_graph (s : sx) : option graph :=
             un_list (fun e => match e with
                               | SL [SZ d; l] => match un_list un_zpair l with Some l => Some (d, l) | None => None end
                               | _ => None end) es with
-      | Some ns, Some es => Some {| g_nodes := ns; g_edges := es |}
+      | Some ns, Some es => Some (mkGraph ns es)
       | _, _ => None
       end
   | _ => None
